@@ -571,7 +571,7 @@ class Translator:
             return Opaque("itertools." + name)
         if name in ("int", "float", "len", "range", "abs", "sum", "list", "tuple", "zip", "enumerate", "min", "max",
                     "isinstance", "hasattr", "callable", "complex", "round", "pow", "print", "dict", "str", "sorted", "reversed", "bool", "type",
-                    "set", "frozenset", "any", "all", "map", "filter", "getattr", "iter", "next"):
+                    "set", "frozenset", "any", "all", "map", "filter", "getattr", "iter", "next", "id", "vars"):
             return Opaque("builtin." + name)
         return Opaque(name)
 
@@ -942,6 +942,10 @@ class Translator:
             raise Unmodelled("str() of a symbolic value")
         if name == "print":
             return None
+        if name == "id" and len(args) == 1:
+            return id(a0)  # identity of the abstract value: equal for the same object, different otherwise
+        if name == "vars" and len(args) == 1 and isinstance(a0, SelfObj):
+            return a0.attrs
         if name == "iter" and len(args) == 1:
             a0 = self._iterable(a0, n, 0)
             if isinstance(a0, (list, tuple, dict, range, str)):
